@@ -107,6 +107,143 @@ def api_scenarios(R):
     return lines, fail, len(obs)
 
 
+# ---------------------------------------------------------------------------------------------------------
+# libaddrxlat-level OS set-up: addrxlat_sys_os_init and conversions on generated images of every architecture
+# (tools/props/c08img.py through harness/s_os.c in its C16 mode), with the get_page callback failing with each
+# status class at each page the set-up reads and each symbol / number look-up refused in turn.
+OS_GENS = ["gen_x86_64_linux", "gen_x86_64_xen", "gen_ia32_linux", "gen_riscv64_linux", "gen_aarch64_linux", "gen_arm_linux"]
+OS_FAIL = ["nodata", "notpresent", "nomem", "invalid", "notimpl", "custom4", "custom7"]     # custom<n>: a tunnelled kdump_status
+
+
+def os_images(R):
+    """(name, image) list: random images of every generator plus the images whose root page table is a kernel virtual
+    address that the read callback claims to serve (the `direct_read_ok` class of arm, aarch64, riscv64)."""
+    import random
+    from props import c08img as G
+    rng, quick = R.rng, R.tier == "quick"
+    out = []
+    def mk(g, force=None):
+        return getattr(G, g)(random.Random(rng.getrandbits(48)), force=dict(force) if force else None)
+    for g in OS_GENS:
+        for k in range(1 if quick else 6):
+            out.append(("%s#%d" % (g[4:], k), mk(g)))
+    combos = [(ro, st, pb, rc) for ro in ("kv", None) for st in (True, False) for pb in (True, False) for rc in (7, 4)]
+    # the class "root readable at its virtual address, nothing else known" is in every run; the rest is sampled
+    chosen = [("kv", False, False, 7), (None, False, True, 7)] + (rng.sample(combos, 4) if quick else combos)
+    for ro, st, pb, rc in chosen:
+        img = mk("gen_arm_linux", dict(rootopt=ro, swapper=True, stext=st, phys_base_opt=pb, rcaps=rc))
+        out.append(("arm-kvroot(opt=%s,stext=%d,phys_base=%d,rcaps=%d)" % (ro, st, pb, rc), img))
+    for g, num in (("gen_aarch64_linux", "kimage_voffset"), ("gen_riscv64_linux", "va_kernel_pa_offset")):
+        for drop in (False, True):
+            img = mk(g, dict(rootsrc="sym"))
+            img.rcaps |= 4
+            if drop:
+                img.syms = [x for x in img.syms if x[1] != num]
+            out.append(("%s-kvroot(%s=%d)" % (g[4:-6], num, not drop), img))
+    return out
+
+
+def os_verdict(st, msg, ev, custom_injected):
+    """the monitor on one `E` line of harness/s_os.c: None, or what is wrong"""
+    import re
+    if st == "UNDOCUMENTED" or (st == "custom" and not custom_injected):
+        return "returned a status outside the documented enumeration"
+    if st == "ok" and msg != "-":
+        return "succeeded and left the message '%s' in the context" % msg[:160]
+    if st != "ok" and msg == "-":
+        return "failed with status %s and an empty error string" % st
+    if st == "ok":
+        return None
+    tags = re.findall(r"\[ev(\d+)\]", msg)
+    links = msg.split(": ")
+    # (a generic link such as "No way to translate" legitimately recurs when a translation needs a read that
+    # needs a translation; what must not recur is a callback failure, and those carry their own number)
+    if len(tags) > 1:
+        return "failed with a chain that tells two stories (text of an earlier, tolerated failure is still in it): '%s'" % msg[:240]
+    if tags and not links[-1].startswith("[ev"):
+        return "failed with a chain whose origin is not its innermost link: '%s'" % msg[:200]
+    if tags and int(tags[0]) != ev:
+        return "failed with a chain that ends in callback failure #%s although #%d was the last one: '%s'" % (tags[0], ev, msg[:200])
+    return None
+
+
+def os_family(R):
+    """returns (violation or None, statistics)"""
+    lib, cflags = R.build_lib()
+    exe = R.build_harness("s_os", ["s_os.c"], lib=lib, cflags=cflags)
+    rng, quick = R.rng, R.tier == "quick"
+    imgs = os_images(R)
+    # pass 1: the unharmed set-up of every image, with the list of pages it reads
+    base = ["c16 1"]
+    for name, img in imgs:
+        base += img.setup_lines()
+    rc, out, err = R.run_harness(exe, stdin_text="\n".join(base) + "\n")
+    pages, cur, elines = [], [], []
+    for l in out.split("\n"):
+        if l.startswith("P "):
+            t = tuple(int(x) for x in l.split()[1:3])
+            if t not in cur:
+                cur.append(t)
+        elif l.startswith("E osinit"):
+            pages.append(cur); cur = []; elines.append(l)
+    if rc != 0 or len(elines) != len(imgs):
+        return (("OS set-up harness stopped (rc=%s) after %d of %d images: %s" % (rc, len(elines), len(imgs), err.strip()[-600:]),
+                 dict(stream="os", input="\n".join(base[-40:]))), {})
+    script, desc = ["c16 2"], []
+    for (name, img), pg in zip(imgs, pages):
+        L = img.setup_lines()
+        osinit = L[-1]
+        script += L[:-1]
+        qs = [r[1] for r in img.regions[:2]] + [0x10]
+        def one(inject, what, custom=False):
+            script.extend(["newsys", "unbad", "hide - - ok"] + inject + [osinit])
+            desc.append((name, img, inject, what + " during addrxlat_sys_os_init", custom))
+            for q in qs:
+                script.append("conv 0 2 %d" % q)
+                desc.append((name, img, inject, what + "; conversion of KVADDR:%#x after the set-up" % q, custom))
+        one([], "nothing fails")
+        pts = list(pg)
+        if quick and len(pts) > 6:
+            pts = pts[:3] + pts[-1:] + rng.sample(pts[3:-1], 2)
+        elif len(pts) > 48:
+            pts = pts[:16] + pts[-8:] + rng.sample(pts[16:-8], 24)
+        for i, (as_, a) in enumerate(pts):
+            sts = OS_FAIL if (i == 0 or not quick) else ["nodata"] + rng.sample(OS_FAIL[1:], 2)
+            for st in sts:
+                one(["bad %d %d %s" % (as_, a, st)], "get_page fails with %s for %s:%#x" % (st, ("KPHYSADDR", "MACHPHYSADDR", "KVADDR")[as_], a),
+                    st.startswith("custom"))
+        names = list(dict.fromkeys((k, n) for k, n, v in img.syms))
+        for k, n in names:
+            for st in (["nodata", rng.choice(OS_FAIL[1:])] if quick else OS_FAIL):
+                one(["hide %s %s %s" % (k, n, st)], "the %s look-up of %s fails with %s" % (k, n, st), st.startswith("custom"))
+    rc, out, err = R.run_harness(exe, stdin_text="\n".join(script) + "\n", timeout=1200)
+    E = [l for l in out.split("\n") if l.startswith("E ")]
+    stats = dict(images=len(imgs), calls=len(E), failing=0, tolerated_failures=0)
+    fail = None
+    for (name, img, inject, what, custom), l in zip(desc, E):
+        head, msg = l.split(" | ", 1)
+        t = head.split()
+        st, ev = t[2], int(t[3][3:])
+        if st != "ok":
+            stats["failing"] += 1
+        elif inject and ev:
+            stats["tolerated_failures"] += 1
+        v = os_verdict(st, msg, ev, custom)
+        if v:
+            stats.setdefault("verdicts", []).append("%s | %s | %s" % (name, what[:90], v[:200]))
+        if v and fail is None:
+            L = img.setup_lines()
+            fail = ("%s (image %s: %s): %s" % (t[1] == "osinit" and "addrxlat_sys_os_init" or "addrxlat_fulladdr_conv", name, what, v),
+                    dict(stream="os", image=name, desc={k: str(x) for k, x in img.desc.items()}, what=what,
+                         observed=l, input="\n".join(["c16 2"] + L[:-1] + inject + [L[-1]]) if len(L) < 3000 else
+                         "\n".join(["c16 2", "# %d set-up lines of the image omitted" % (len(L) - 1)] + [x for x in L if not x.startswith("ovr")][:-1] + inject + [L[-1]])))
+    if fail is None and (rc != 0 or len(E) != len(desc)):
+        k = min(len(E), len(desc) - 1)
+        fail = ("OS set-up harness stopped (rc=%s) at image %s, %s: %s" % (rc, desc[k][0], desc[k][3], err.strip()[-600:]),
+                dict(stream="os", image=desc[k][0], inject=desc[k][2]))
+    return fail, stats
+
+
 def run(R):
     facts, changed = R.extract()
     proof = R.prove(["Kdf.Props.C16"], THEOREMS) if THEOREMS else dict(obligations=0, discharged=0, broken=[], axioms={}, log="")
